@@ -5,7 +5,7 @@ from vlib import Case, hx
 
 HARNESS = "sim_driver"
 LEAN_MODULES = ["ViaProofs.C09"]
-LEMMA_MODULES = ['ViaProofs.ConnLemmas', 'ViaProofs.ConnWrites', 'ViaProofs.Trans.MHA', 'ViaProofs.Trans.RQP']
+LEMMA_MODULES = ['ViaProofs.ConnLemmas', 'ViaProofs.ConnWrites', 'ViaProofs.Trans.MHA', 'ViaProofs.Trans.RQP', 'ViaProofs.Trans.RQ', 'ViaProofs.Trans.RR']
 REQUIRED_THEOREMS = ['Via.C09_close_deferred', 'Via.C09_no_shutdown_while_writing', 'Via.C09_close_on_completion', 'Via.C09_keepalive_stays_open', 'Via.C09_keepalive_completion', 'Via.C09_keepalive_iff', 'Via.C09_no_truncation', 'Via.C09_disconnect_shuts_down_idle_only']
 LEVEL = "proof"
 LEVEL_TEXT = ('PROOF over EVERY history of the connection model that a connection which is not transmitting has no write in flight and at most one write is ever in flight, so disconnect() never shuts down over a response being written and the completion that performs a recorded shutdown leaves nothing in flight (C09_no_truncation), plus the decision lemmas for keep-alive vs close; correspondence with the real templates; real-socket 8 MiB slow-reader runs validate the adaptor contract. Known findings C09-KF1/KF2 (late responses, chunked responses to non keep-alive requests).')
@@ -25,6 +25,24 @@ def generate(tier, rng):
     cases = S.corpus_cases("C09") + kf_cases()
     cases += S.make_cases("c09", tier, rng, 400, 12000, force={"policy": "sync", "resp": "fixed"})
     cases += S.make_cases("c09a", tier, rng, 100, 3000)
+    # the one refusal of a COMPLETE, otherwise well-formed request: HTTP/1.1 without Host.  The library's 400 answers a
+    # request whose persistence is known: the connection is closed after it iff the request said `Connection: close`
+    for i in range(24 if tier == "quick" else 400):
+        close = rng.chance(1, 2)
+        conn = rng.choice([b"close", b"Close", b"keep-alive, close", b"TE,close"]) if close else rng.choice([b"keep-alive", b"TE"])
+        method = rng.choice([b"GET", b"POST", b"DELETE"])
+        hdrs = [(b"Connection", conn)]
+        if method == b"POST":
+            hdrs.append((b"Content-Length", b"0"))
+        line, o = gen_sim.server_line(rng, {"policy": "sync", "resp": "fixed", "invh": 0, "autodisc": 0, "filter": "all"})
+        lines = [line, "accept"]
+        if o["flavour"] == "ssl":
+            lines.append("hs c0 ok")
+        data = gen_sim.req(method, b"/x", headers=hdrs)
+        for part in gen_sim.split_reads(rng, data):
+            lines.append("read c0 " + hx(part))
+        lines += ["wdone c0", "wdone c0", "state"]
+        cases.append(Case("c09-nohost-%d" % i, lines, {"opts": o, "nohost_close": close, "tags": ["nohost-close" if close else "nohost-keep"]}))
     return cases
 
 
@@ -67,7 +85,16 @@ def classify(case, fail, il, findings):
 
 
 def oracle(case, out):
-    return S.oracle_c09(case, S.cut(case, out))
+    r = S.oracle_c09(case, S.cut(case, out))
+    if r is None and case.meta.get("nohost_close") is not None:
+        wrote = any(l.startswith("io wire c0") for l in out)
+        shut = any(l.startswith("io shutdown c0") for l in out)
+        if wrote and case.meta["nohost_close"] and not shut:
+            return ("c0: an HTTP/1.1 request without Host that carried `Connection: close` was answered (400) and the connection "
+                    "was left open")
+        if wrote and not case.meta["nohost_close"] and shut:
+            return "c0: a keep-alive HTTP/1.1 request without Host was answered (400) and the connection was closed"
+    return r
 
 
 def nontrivial(case, out):
